@@ -366,7 +366,8 @@ class FakeSnowflakeCursor:
             catalog = table.catalog or self._conn.database
             schema = table.db or self._conn.schema
             assert catalog and schema
-            self._duck_conn.execute(info_schema.insert_table_comment_sql(catalog, schema, table.name, comment))
+            if comment is not None:
+                self._duck_conn.execute(info_schema.insert_table_comment_sql(catalog, schema, table.name, comment))
             # return the statement's status rather than the result of the insert above
             result_sql = result_sql or SQL_SUCCESS
 
